@@ -25,6 +25,7 @@ var gatesVocab = []string{
 	".Response.Header.Set(Location)", ".Response.WriteHeader(http.StatusPermanentRedirect)", "redirectLocation", ".String", // 35-38
 	".reader.Read", "fmt.Errorf(%w: %d bytes)", "=.read", "redirect308HTTP", ".ServeHTTP", ".Header.Set(Location)", // 39-44
 	".WriteHeader(http.StatusPermanentRedirect)", ".Request.Context.Value", "=.Request.URL.Path", "=.Path", // 45-48
+	"[]", // 49: a lookup in a local map / slice (methodoverride's onlyOn and allow maps)
 }
 
 func genGates(repo string) string {
